@@ -36,12 +36,23 @@ func doLZ4Encode(data []byte, level int) ([]byte, error) {
 	return buf, nil
 }
 
+// lz4MaxRatio lz4 block的最大压缩比为255
+const lz4MaxRatio = 255
+
 func doLZ4Decode(buf []byte) ([]byte, error) {
-	dst := make([]byte, 10*len(buf))
-	n, err := lz4.UncompressBlock(buf, dst)
-	if err != nil {
-		return nil, err
+	maxSize := lz4MaxRatio * len(buf)
+	size := 10 * len(buf)
+	for {
+		dst := make([]byte, size)
+		n, err := lz4.UncompressBlock(buf, dst)
+		if err == nil {
+			return dst[:n], nil
+		}
+		// 出错有可能是目标空间不足（压缩比大于当前倍数），
+		// 加大空间重试，直至超过最大压缩比
+		if size >= maxSize {
+			return nil, err
+		}
+		size *= 2
 	}
-	dst = dst[:n]
-	return dst, nil
 }
